@@ -147,15 +147,33 @@ Lemma rec_end fs0 fs1 : Good fs1 -> Recoverable H fs0 fs1 fs1.
 Proof. intros (L & B & I). repeat split; auto. Qed.
 
 (* ---------- invariant of quiescent states ---------- *)
+Definition temp_ctr (p : fpath) : nat :=
+  match p with FIndexTmp c | FIngest _ c => c | _ => 0%nat end.
+
+(* Holds after every completed operation AND after every crash + reopen:
+   - every reference of the tag resolver is also held by digest, and every digest held
+     names an existing blob;
+   - every entry of index.json on disk is held by digest (so nothing the disk index names
+     can be unlinked without the index being rewritten first);
+   - temporaries that a future operation will create do not exist yet (leftovers of
+     interrupted operations have older counters = other random names). *)
 Record Inv (s : st) : Prop := {
   inv_layout : layout_ok (sfs s);
   inv_blob : blob_ok H (sfs s);
-  inv_tags : forall r n, In (r, n) (stags s) -> has (sfs s) (FBlob n);
+  inv_tagdig : forall r n, In (r, n) (stags s) -> In n (sdigs s);
   inv_digs : forall n, In n (sdigs s) -> has (sfs s) (FBlob n);
-  inv_temp : forall p, is_temp p = true -> files (sfs s) p = None;
+  inv_temp : forall p, is_temp p = true -> (sctr s <= temp_ctr p)%nat -> files (sfs s) p = None;
   inv_index : exists l, read_index (sfs s) = Some l /\
-                        forall e, In e l <-> In e (save (stags s) (sdigs s))
+                        forall e, In e l -> In (fst e) (sdigs s)
 }.
+
+Lemma inv_tags s : Inv s -> forall r n, In (r, n) (stags s) -> has (sfs s) (FBlob n).
+Proof. intros I r n Hin. apply (inv_digs s I). now apply (inv_tagdig s I r). Qed.
+
+(* index.json on disk is what saveIndex would write now (true when no crash intervened) *)
+Definition Agree (s : st) : Prop :=
+  exists l, read_index (sfs s) = Some l /\
+            forall e, In e l <-> In e (save (stags s) (sdigs s)).
 
 Lemma save_In tags digs e :
   In e (save tags digs) ->
@@ -174,11 +192,17 @@ Proof.
   intros Ht Hd e Hin. apply save_In in Hin as [(r & Hr)|Hn]; [now apply (Ht r)|now apply Hd].
 Qed.
 
+Lemma save_in_digs tags digs :
+  (forall r n, In (r, n) tags -> In n digs) ->
+  forall e, In e (save tags digs) -> In (fst e) digs.
+Proof.
+  intros Ht e Hin. apply save_In in Hin as [(r & Hr)|Hn]; [now apply (Ht r)|exact Hn].
+Qed.
+
 Lemma inv_good s : Inv s -> Good (sfs s).
 Proof.
   intros [L B T D _ (l & Hl & Hs)]. split; [exact L|split; [exact B|]].
-  exists l. split; [exact Hl|]. intros e Hin. apply Hs in Hin.
-  now apply (save_exist (sfs s) (stags s) (sdigs s)).
+  exists l. split; [exact Hl|]. intros e Hin. apply D. now apply Hs.
 Qed.
 
 (* ---------- writing index.json: temp file, then rename ---------- *)
@@ -245,8 +269,12 @@ Proof.
   apply orb_false_iff in E as [E1 E2]. destruct Hx as [<-|Hx]; [exact E1|now apply IH].
 Qed.
 
-Lemma inv_ctr fs tags digs c c' : Inv (mkSt fs tags digs c) -> Inv (mkSt fs tags digs c').
-Proof. intros [L B T D Tm I]. constructor; assumption. Qed.
+Lemma inv_ctr fs tags digs c c' : (c <= c')%nat ->
+  Inv (mkSt fs tags digs c) -> Inv (mkSt fs tags digs c').
+Proof.
+  intros Hc [L B T D Tm I]. constructor; try assumption.
+  cbn [sfs sctr] in *. intros p Hp Hq. apply Tm; [exact Hp|lia].
+Qed.
 
 Lemma prefix_temp_only fs0 fs1 (A : list mstep) base :
   (forall m, In m A -> forall p, touches m p -> is_temp p = true) ->
@@ -261,35 +289,39 @@ Qed.
 (* ---------- operations that only rewrite index.json ---------- *)
 Lemma idx_only_safe s tags' digs' :
   Inv s ->
-  (forall r n, In (r, n) tags' -> has (sfs s) (FBlob n)) ->
+  (forall r n, In (r, n) tags' -> In n digs') ->
   (forall n, In n digs' -> has (sfs s) (FBlob n)) ->
   let ms := idx_steps (sctr s) tags' digs' in
   let fs1 := apply ms (sfs s) in
   Inv (mkSt fs1 tags' digs' (S (sctr s))) /\
+  Agree (mkSt fs1 tags' digs' (S (sctr s))) /\
   (forall p, p <> FIndex -> is_temp p = false -> files fs1 p = files (sfs s) p) /\
   forall k, Recoverable H (sfs s) (apply (firstn k ms) (sfs s)) fs1.
 Proof.
   intros I Ht Hd ms fs1.
-  pose proof (inv_temp s I (FIndexTmp (sctr s)) eq_refl) as Hnone.
+  pose proof (inv_temp s I (FIndexTmp (sctr s)) eq_refl (le_n _)) as Hnone.
   destruct (idx_final (sctr s) tags' digs' (sfs s) Hnone) as (F1 & F2 & F3).
   fold ms in F1, F2, F3. fold fs1 in F1, F2, F3.
   assert (Fnt : forall p, p <> FIndex -> is_temp p = false -> files fs1 p = files (sfs s) p).
   { intros p Hp Hn. apply F3; [exact Hp|]. intros ->. discriminate. }
+  assert (RI : read_index fs1 = Some (shuffle (sctr s) (save tags' digs'))).
+  { unfold read_index. rewrite F1. reflexivity. }
   assert (I1 : Inv (mkSt fs1 tags' digs' (S (sctr s)))).
-  { destruct I as [L B T D Tm Ix]. constructor; cbn [sfs stags sdigs].
+  { destruct I as [L B T D Tm Ix]. constructor; cbn [sfs stags sdigs sctr].
     - destruct L as (f & Hf & Hc). exists f. split; [|exact Hc]. rewrite Fnt; [exact Hf|discriminate|reflexivity].
     - intros d f Hf. apply (B d f). rewrite <- Fnt; [exact Hf|discriminate|reflexivity].
-    - intros r n Hin. apply (has_eq fs1 (sfs s)); [apply Fnt; [discriminate|reflexivity]|]. now apply (Ht r).
+    - exact Ht.
     - intros n Hin. apply (has_eq fs1 (sfs s)); [apply Fnt; [discriminate|reflexivity]|]. now apply Hd.
-    - intros p Hp. destruct (fpath_eqb p (FIndexTmp (sctr s))) eqn:E.
+    - intros p Hp Hq. destruct (fpath_eqb p (FIndexTmp (sctr s))) eqn:E.
       + apply fpath_eqb_spec in E. subst p. exact F2.
-      + rewrite F3; [now apply Tm| |].
+      + rewrite F3; [apply Tm; [exact Hp|lia]| |].
         * intros ->. discriminate.
         * intros ->. rewrite fpath_eqb_refl in E. discriminate.
-    - exists (shuffle (sctr s) (save tags' digs')). split.
-      + unfold read_index. rewrite F1. reflexivity.
-      + intro e. apply shuffle_In. }
-  split; [exact I1|split; [exact Fnt|]].
+    - exists (shuffle (sctr s) (save tags' digs')). split; [exact RI|].
+      intros e Hin. apply shuffle_In in Hin. now apply (save_in_digs tags' digs'). }
+  split; [exact I1|]. split.
+  { exists (shuffle (sctr s) (save tags' digs')). split; [exact RI|]. intro e. apply shuffle_In. }
+  split; [exact Fnt|].
   intro k. destruct (Nat.lt_ge_cases k 4) as [Hk|Hk].
   - apply (rec_nt (sfs s) (sfs s)); [|apply rec_start; now apply inv_good].
     intros p Hp. symmetry. now apply (idx_prefix (sctr s) tags' digs' (sfs s) k Hk p Hp).
@@ -351,6 +383,7 @@ Lemma push_bad_safe s d cont :
   let ms := ingest_pre (sfs s) t cont ++ [Close t; Unlink t] in
   let fs1 := apply ms (sfs s) in
   Inv (mkSt fs1 (stags s) (sdigs s) (S (sctr s))) /\
+  (Agree s -> Agree (mkSt fs1 (stags s) (sdigs s) (S (sctr s)))) /\
   (forall p, files fs1 p = files (sfs s) p) /\
   forall k, Recoverable H (sfs s) (apply (firstn k ms) (sfs s)) fs1.
 Proof.
@@ -362,24 +395,36 @@ Proof.
   { unfold fs1, ms. rewrite apply_app. unfold apply at 1. cbn [fold_left apply1 files]. apply upd_same. }
   assert (Fo : forall p, files fs1 p = files (sfs s) p).
   { intro p. destruct (fpath_eqb p t) eqn:E.
-    - apply fpath_eqb_spec in E. subst p. rewrite Ft. symmetry. now apply (inv_temp s I).
+    - apply fpath_eqb_spec in E. subst p. rewrite Ft. symmetry.
+      exact (inv_temp s I t eq_refl (le_n _)).
     - apply (only_touch_frame ms t); [exact HT|]. intros ->. rewrite fpath_eqb_refl in E. discriminate. }
+  assert (RI : read_index fs1 = read_index (sfs s)) by (unfold read_index; now rewrite Fo).
   assert (I1 : Inv (mkSt fs1 (stags s) (sdigs s) (S (sctr s)))).
-  { destruct I as [L B T D Tm Ix]. constructor; cbn [sfs stags sdigs].
+  { destruct I as [L B T D Tm Ix]. constructor; cbn [sfs stags sdigs sctr].
     - destruct L as (f & Hf & Hc). exists f. now rewrite Fo.
     - intros d' f Hf. apply (B d' f). now rewrite <- Fo.
-    - intros r n Hin. apply (has_eq fs1 (sfs s)); [apply Fo|now apply (T r)].
+    - exact T.
     - intros n Hin. apply (has_eq fs1 (sfs s)); [apply Fo|now apply D].
-    - intros p Hp. rewrite Fo. now apply Tm.
-    - destruct Ix as (l & Hl & He). exists l. split; [|exact He].
-      unfold read_index. rewrite Fo. exact Hl. }
-  split; [exact I1|split; [exact Fo|]]. intro k.
+    - intros p Hp Hq. rewrite Fo. apply Tm; [exact Hp|lia].
+    - rewrite RI. exact Ix. }
+  split; [exact I1|]. split.
+  { intros (l & Hl & He). exists l. cbn [sfs stags sdigs]. rewrite RI. now split. }
+  split; [exact Fo|]. intro k.
   apply prefix_temp_only; [now apply (only_touch_temp ms t)|].
   apply rec_start. now apply inv_good.
 Qed.
 
 Lemma dig_add_In d digs n : In n (dig_add d digs) -> n = d \/ In n digs.
 Proof. unfold dig_add. destruct (memN d digs); simpl; intuition. Qed.
+
+Lemma dig_add_incl d digs n : In n digs -> In n (dig_add d digs).
+Proof. unfold dig_add. destruct (memN d digs); simpl; intuition. Qed.
+
+Lemma dig_add_self d digs : In d (dig_add d digs).
+Proof.
+  unfold dig_add, memN. destruct (existsb (N.eqb d) digs) eqn:E; [|now left].
+  apply existsb_exists in E as (x & Hin & E). apply N.eqb_eq in E. now subst x.
+Qed.
 
 (* ---------- Push of verified content (and, for a manifest, the index update) ---------- *)
 Lemma push_good_safe s d cont (man : bool) :
@@ -392,13 +437,14 @@ Lemma push_good_safe s d cont (man : bool) :
   let ms := A ++ Rename t (FBlob d) :: IX in
   let fs1 := apply ms (sfs s) in
   Inv (mkSt fs1 (stags s) digs' (S c)) /\
+  (Agree s -> Agree (mkSt fs1 (stags s) digs' (S c))) /\
   (forall d', exists_file fs1 (FBlob d') = if d' =? d then true else exists_file (sfs s) (FBlob d')) /\
   forall k, Recoverable H (sfs s) (apply (firstn k ms) (sfs s)) fs1.
 Proof.
   intros I Hnew HH c t digs' A IX ms fs1.
   set (fs0 := sfs s) in *.
   set (X := mkFile (map AChunk cont) true).
-  assert (Htmp : files fs0 t = None) by (now apply (inv_temp s I)).
+  assert (Htmp : files fs0 t = None) by (exact (inv_temp s I t eq_refl (le_n _))).
   assert (HT : only_touch A t).
   { apply only_touch_app; [intros m Hin p; now apply (ingest_pre_touch fs0 t cont)|].
     intros m [<-|[<-|[]]] p Hp; cbn in Hp; [exact Hp|contradiction]. }
@@ -418,15 +464,15 @@ Proof.
   assert (FBb : forall d', files fsB (FBlob d') = if d' =? d then Some X else files fs0 (FBlob d')).
   { intro d'. now rewrite FB. }
   assert (IB : Inv (mkSt fsB (stags s) (sdigs s) c)).
-  { destruct I as [L B T D Tm Ix]. fold fs0 in L, B, T, D, Tm, Ix.
-    constructor; cbn [sfs stags sdigs].
+  { destruct I as [L B T D Tm Ix]. fold fs0 in L, B, T, D, Tm, Ix. fold c in Tm.
+    constructor; cbn [sfs stags sdigs sctr].
     - destruct L as (f & Hf & Hc). exists f. rewrite FB. cbn. now split.
     - intros d' f. rewrite FBb. destruct (d' =? d) eqn:E.
       + apply N.eqb_eq in E. subst d'. intro Hf. injection Hf as <-. exists cont. now split.
       + apply B.
-    - intros r n Hin. unfold has. rewrite FBb. destruct (n =? d); [discriminate|]. now apply (T r).
+    - exact T.
     - intros n Hin. unfold has. rewrite FBb. destruct (n =? d); [discriminate|]. now apply D.
-    - intros p Hp. rewrite FB. destruct p; try discriminate; cbn; now apply Tm.
+    - intros p Hp Hq. rewrite FB. destruct p; try discriminate; cbn; now apply Tm.
     - destruct Ix as (l & Hl & He). exists l. split; [|exact He].
       unfold read_index. rewrite FB. cbn. exact Hl. }
   assert (Hsplit : forall k,
@@ -448,10 +494,12 @@ Proof.
     { intros n Hin. apply dig_add_In in Hin as [->|Hin].
       - unfold has. rewrite FBb, N.eqb_refl. discriminate.
       - exact (inv_digs _ IB n Hin). }
-    destruct (idx_only_safe (mkSt fsB (stags s) (sdigs s) c) (stags s) digs' IB (inv_tags _ IB) Hd')
-      as (I1 & Fnt & _).
-    cbn [sfs sctr] in I1, Fnt. fold IX in I1, Fnt. rewrite <- F1 in I1, Fnt.
-    split; [exact I1|]. split.
+    assert (Htd' : forall r n, In (r, n) (stags s) -> In n digs').
+    { intros r n Hin. apply dig_add_incl. exact (inv_tagdig s I r n Hin). }
+    destruct (idx_only_safe (mkSt fsB (stags s) (sdigs s) c) (stags s) digs' IB Htd' Hd')
+      as (I1 & A1 & Fnt & _).
+    cbn [sfs sctr] in I1, A1, Fnt. fold IX in I1, A1, Fnt. rewrite <- F1 in I1, A1, Fnt.
+    split; [exact I1|]. split; [intros _; exact A1|]. split.
     { intro d'. unfold exists_file. rewrite Fnt; [|discriminate|reflexivity]. rewrite FBb.
       now destruct (d' =? d). }
     intro k.
@@ -473,8 +521,11 @@ Proof.
   - (* plain blob *)
     assert (F1' : fs1 = fsB) by (rewrite F1; reflexivity).
     assert (I1 : Inv (mkSt fs1 (stags s) (sdigs s) (S c))).
-    { rewrite F1'. exact (inv_ctr _ _ _ c (S c) IB). }
+    { rewrite F1'. exact (inv_ctr _ _ _ c (S c) (Nat.le_succ_diag_r c) IB). }
     split; [exact I1|]. split.
+    { intros (l & Hl & He). exists l. cbn [sfs stags sdigs]. split; [|exact He].
+      unfold read_index. rewrite F1', FB. cbn. exact Hl. }
+    split.
     { intro d'. unfold exists_file. rewrite F1', FBb. now destruct (d' =? d). }
     intro k.
     destruct (Hsplit k) as [(k' & ->)|(k' & ->)]; [apply Hstart|].
@@ -484,25 +535,23 @@ Qed.
 
 (* ---------- Delete: index first, then the blob ---------- *)
 Lemma unlink_inv fs tags digs c c' d :
-  Inv (mkSt fs tags digs c) ->
-  (forall r n, In (r, n) tags -> n <> d) -> (forall n, In n digs -> n <> d) ->
+  (c <= c')%nat ->
+  Inv (mkSt fs tags digs c) -> ~ In d digs ->
   Inv (mkSt (apply1 fs (Unlink (FBlob d))) tags digs c').
 Proof.
-  intros [L B T D Tm Ix] Ht Hd. cbn [sfs stags sdigs] in *.
+  intros Hc [L B T D Tm Ix] Hd. cbn [sfs stags sdigs sctr] in *.
   assert (FU : forall p, files (apply1 fs (Unlink (FBlob d))) p = upd (files fs) (FBlob d) None p)
     by reflexivity.
-  constructor; cbn [sfs stags sdigs].
-  - destruct L as (f & Hf & Hc). exists f. rewrite FU, upd_other by discriminate. now split.
+  constructor; cbn [sfs stags sdigs sctr].
+  - destruct L as (f & Hf & Hc'). exists f. rewrite FU, upd_other by discriminate. now split.
   - intros d' f. rewrite FU. destruct (N.eq_dec d' d) as [->|Hn].
     + rewrite upd_same. discriminate.
     + rewrite upd_other by congruence. apply B.
-  - intros r n Hin. unfold has. rewrite FU, upd_other.
-    + now apply (T r).
-    + intro E. injection E as E. exact (Ht r n Hin E).
+  - exact T.
   - intros n Hin. unfold has. rewrite FU, upd_other.
     + now apply D.
-    + intro E. injection E as E. exact (Hd n Hin E).
-  - intros p Hp. rewrite FU, upd_other; [now apply Tm|]. intros ->. discriminate.
+    + intro E. injection E as E. subst n. contradiction.
+  - intros p Hp Hq. rewrite FU, upd_other; [apply Tm; [exact Hp|lia]|]. intros ->. discriminate.
   - destruct Ix as (l & Hl & He). exists l. split; [|exact He].
     unfold read_index. rewrite FU, upd_other by discriminate. exact Hl.
 Qed.
@@ -510,11 +559,13 @@ Qed.
 Lemma noop_safe s tags digs :
   Inv s -> tags = stags s -> digs = sdigs s ->
   Inv (mkSt (apply [] (sfs s)) tags digs (S (sctr s))) /\
+  (Agree s -> Agree (mkSt (apply [] (sfs s)) tags digs (S (sctr s)))) /\
   (forall p, files (apply [] (sfs s)) p = files (sfs s) p) /\
   forall k, Recoverable H (sfs s) (apply (firstn k []) (sfs s)) (apply [] (sfs s)).
 Proof.
-  intros I -> ->. split; [|split].
-  - destruct I as [L B T D Tm Ix]. constructor; assumption.
+  intros I -> ->. split; [|split; [|split]].
+  - apply (inv_ctr _ _ _ (sctr s)); [lia|]. destruct s; exact I.
+  - intro A. exact A.
   - reflexivity.
   - intro k. rewrite firstn_nil. apply rec_start. now apply inv_good.
 Qed.
@@ -529,6 +580,7 @@ Lemma delete_safe s d :
   let ms := IX ++ UN in
   let fs1 := apply ms (sfs s) in
   Inv (mkSt fs1 tags' digs' (S (sctr s))) /\
+  (Agree s -> Agree (mkSt fs1 tags' digs' (S (sctr s)))) /\
   (forall d', exists_file fs1 (FBlob d') = if d' =? d then false else exists_file (sfs s) (FBlob d')) /\
   forall k, Recoverable H (sfs s) (apply (firstn k ms) (sfs s)) fs1.
 Proof.
@@ -538,32 +590,38 @@ Proof.
   { intros fs d'. unfold exists_file. cbn [apply1 files]. destruct (d' =? d) eqn:E.
     - apply N.eqb_eq in E. subst d'. now rewrite upd_same.
     - apply N.eqb_neq in E. rewrite upd_other; [reflexivity|congruence]. }
+  assert (RU : forall fs, read_index (apply1 fs (Unlink (FBlob d))) = read_index fs).
+  { intro fs. unfold read_index. cbn [apply1 files]. now rewrite upd_other by discriminate. }
   assert (Ht' : forall r n, In (r, n) tags' -> In (r, n) (stags s) /\ n <> d).
   { intros r n Hin. apply filter_In in Hin as [Hin E]. split; [exact Hin|].
     cbn in E. apply negb_true_iff in E. now apply N.eqb_neq in E. }
   assert (Hd' : forall n, In n digs' -> In n (sdigs s) /\ n <> d).
   { intros n Hin. apply filter_In in Hin as [Hin E]. split; [exact Hin|].
     apply negb_true_iff in E. now apply N.eqb_neq in E. }
+  assert (Hnd : ~ In d digs').
+  { intro Hin. apply Hd' in Hin as [_ Hn]. now apply Hn. }
   destruct (existsb (fun e => snd e =? d) (stags s) || memN d (sdigs s)) eqn:Eu.
   - (* some reference names d: the index is rewritten first *)
-    destruct (idx_only_safe s tags' digs' I) as (IM & Fnt & RM).
-    { intros r n Hin. apply (inv_tags s I r). now apply Ht'. }
+    destruct (idx_only_safe s tags' digs' I) as (IM & AM & Fnt & RM).
+    { intros r n Hin. apply Ht' in Hin as [Hin Hn]. apply filter_In. split.
+      - exact (inv_tagdig s I r n Hin).
+      - apply negb_true_iff. now apply N.eqb_neq. }
     { intros n Hin. apply (inv_digs s I). now apply Hd'. }
-    fold IX in IM, Fnt, RM. set (fsM := apply IX (sfs s)) in *.
+    fold IX in IM, AM, Fnt, RM. set (fsM := apply IX (sfs s)) in *.
     destruct (exists_file (sfs s) (FBlob d)) eqn:Ex.
     + assert (F1 : fs1 = apply1 fsM (Unlink (FBlob d))).
       { unfold fs1, ms, UN. now rewrite apply_app. }
       assert (I1 : Inv (mkSt fs1 tags' digs' (S (sctr s)))).
-      { rewrite F1. apply (unlink_inv fsM tags' digs' (S (sctr s))); [exact IM| |].
-        - intros r n Hin. now apply (Ht' r).
-        - intros n Hin. now apply Hd'. }
+      { rewrite F1. exact (unlink_inv fsM tags' digs' (S (sctr s)) (S (sctr s)) d (le_n _) IM Hnd). }
       split; [exact I1|]. split.
+      { intros _. destruct AM as (l & Hl & He). exists l. cbn [sfs stags sdigs] in *.
+        rewrite F1, RU. now split. }
+      split.
       { intro d'. rewrite F1, EU. unfold exists_file. rewrite Fnt; [reflexivity|discriminate|reflexivity]. }
       assert (Mid : Recoverable H (sfs s) fsM fs1).
       { destruct (inv_good _ IM) as (GL & GB & GI). cbn [sfs] in GL, GB, GI.
         repeat split; try assumption.
-        - right. unfold read_index. rewrite F1. cbn [apply1 files].
-          now rewrite upd_other by discriminate.
+        - right. now rewrite F1, RU.
         - intros d' H0 _. apply (has_eq fsM (sfs s)); [|exact H0].
           apply Fnt; [discriminate|reflexivity].
         - intros d' Hh. left. apply (has_eq (sfs s) fsM); [|exact Hh].
@@ -581,7 +639,7 @@ Proof.
            rewrite <- F1. apply rec_end. exact (inv_good _ I1).
     + assert (F1 : fs1 = fsM).
       { unfold fs1, ms, UN. now rewrite app_nil_r. }
-      rewrite F1. split; [exact IM|]. split.
+      rewrite F1. split; [exact IM|]. split; [intros _; exact AM|]. split.
       { intro d'. unfold exists_file. rewrite Fnt; [|discriminate|reflexivity].
         destruct (d' =? d) eqn:E; [|reflexivity]. apply N.eqb_eq in E. subst d'.
         now rewrite (exists_file_false _ _ Ex). }
@@ -598,16 +656,18 @@ Proof.
     + assert (F1 : fs1 = apply1 (sfs s) (Unlink (FBlob d))) by reflexivity.
       assert (I1 : Inv (mkSt fs1 tags' digs' (S (sctr s)))).
       { rewrite F1, Et, Ed. apply (unlink_inv (sfs s) (stags s) (sdigs s) (sctr s)).
+        - lia.
         - destruct s; exact I.
-        - intros r n Hin. rewrite <- Et in Hin. now apply (Ht' r).
-        - intros n Hin. rewrite <- Ed in Hin. now apply Hd'. }
-      split; [exact I1|]. split; [intro d'; rewrite F1; apply EU|].
+        - rewrite <- Ed. exact Hnd. }
+      split; [exact I1|]. split.
+      { intros (l & Hl & He). exists l. cbn [sfs stags sdigs]. rewrite F1, RU, Et, Ed. now split. }
+      split; [intro d'; rewrite F1; apply EU|].
       intro k. unfold ms, IX, UN. cbn [app]. destruct k as [|k].
       * cbn [firstn apply fold_left]. apply rec_start. now apply inv_good.
       * cbn [firstn]. rewrite firstn_nil. change (apply [Unlink (FBlob d)] (sfs s)) with fs1.
         apply rec_end. exact (inv_good _ I1).
-    + destruct (noop_safe s tags' digs' I Et Ed) as (N1 & N2 & N3).
-      split; [exact N1|split; [|exact N3]].
+    + destruct (noop_safe s tags' digs' I Et Ed) as (N1 & NA & N2 & N3).
+      split; [exact N1|split; [exact NA|split; [|exact N3]]].
       intro d'. unfold exists_file. rewrite N2.
       destruct (d' =? d) eqn:E; [|reflexivity]. apply N.eqb_eq in E. subst d'.
       now rewrite (exists_file_false _ _ Ex).
@@ -624,6 +684,7 @@ Qed.
 Lemma op_safe s o :
   Inv s ->
   Inv (runop s o) /\
+  (Agree s -> Agree (runop s o)) /\
   (forall d', exists_file (sfs (runop s o)) (FBlob d')
               = spec_blobs_step H (fun x => exists_file (sfs s) (FBlob x)) o d') /\
   forall k, Recoverable H (sfs s) (crash_fs H shuffle false false s o k) (sfs (runop s o)).
@@ -631,8 +692,9 @@ Proof.
   intro I. unfold run_op, crash_fs, op_steps. destruct o as [d cont man|d r|r|d|].
   - (* Push *)
     cbn [op_mem spec_blobs_step]. destruct (exists_file (sfs s) (FBlob d)) eqn:Ex.
-    + destruct (noop_safe s _ _ I eq_refl eq_refl) as (N1 & N2 & N3).
-      split; [exact N1|split; [|exact N3]]. intro d'. cbn [sfs]. unfold exists_file. now rewrite N2.
+    + destruct (noop_safe s _ _ I eq_refl eq_refl) as (N1 & NA & N2 & N3).
+      split; [exact N1|split; [exact NA|split; [|exact N3]]].
+      intro d'. cbn [sfs]. unfold exists_file. now rewrite N2.
     + apply exists_file_false in Ex. destruct (H cont =? d) eqn:EH; cbn [negb].
       * apply N.eqb_eq in EH.
         pose proof (push_good_safe s d cont man I Ex EH) as P. cbn zeta in P.
@@ -640,36 +702,38 @@ Proof.
         destruct man; cbn [sfs]; exact P.
       * pose proof (push_bad_safe s d cont I) as P. cbn zeta in P.
         unfold ingest_pre in P. rewrite <- !app_assoc in P. cbn [app] in P.
-        destruct P as (P1 & P2 & P3).
-        destruct man; cbn [sfs]; (split; [exact P1|split; [|exact P3]]);
+        destruct P as (P1 & PA & P2 & P3).
+        destruct man; cbn [sfs]; (split; [exact P1|split; [exact PA|split; [|exact P3]]]);
           intro d'; unfold exists_file; now rewrite P2.
   - (* Tag *)
     cbn [op_mem spec_blobs_step]. destruct (exists_file (sfs s) (FBlob d)) eqn:Ex.
     + apply exists_file_true in Ex.
-      destruct (idx_only_safe s (tag_set r d (stags s)) (dig_add d (sdigs s)) I) as (I1 & F1 & R1).
-      * intros r' n Hin. apply tag_set_In in Hin as [E|Hin]; [injection E as -> ->; exact Ex|].
-        now apply (inv_tags s I r').
+      destruct (idx_only_safe s (tag_set r d (stags s)) (dig_add d (sdigs s)) I) as (I1 & A1 & F1 & R1).
+      * intros r' n Hin. apply tag_set_In in Hin as [E|Hin]; [injection E as -> ->; apply dig_add_self|].
+        apply dig_add_incl. exact (inv_tagdig s I r' n Hin).
       * intros n Hin. apply dig_add_In in Hin as [->|Hin]; [exact Ex|now apply (inv_digs s I)].
-      * split; [exact I1|split; [|exact R1]]. intro d'. cbn [sfs]. unfold exists_file.
+      * split; [exact I1|split; [intros _; exact A1|split; [|exact R1]]]. intro d'. cbn [sfs]. unfold exists_file.
         rewrite F1; [reflexivity|discriminate|reflexivity].
-    + destruct (noop_safe s _ _ I eq_refl eq_refl) as (N1 & N2 & N3).
-      split; [exact N1|split; [|exact N3]]. intro d'. cbn [sfs]. unfold exists_file. now rewrite N2.
+    + destruct (noop_safe s _ _ I eq_refl eq_refl) as (N1 & NA & N2 & N3).
+      split; [exact N1|split; [exact NA|split; [|exact N3]]].
+      intro d'. cbn [sfs]. unfold exists_file. now rewrite N2.
   - (* Untag *)
     cbn [op_mem spec_blobs_step]. destruct (tag_get r (stags s)) as [x|] eqn:Eg.
-    + destruct (idx_only_safe s (tag_del r (stags s)) (sdigs s) I) as (I1 & F1 & R1).
+    + destruct (idx_only_safe s (tag_del r (stags s)) (sdigs s) I) as (I1 & A1 & F1 & R1).
       * intros r' n Hin. unfold tag_del in Hin. apply filter_In in Hin as [Hin _].
-        now apply (inv_tags s I r').
+        exact (inv_tagdig s I r' n Hin).
       * apply (inv_digs s I).
-      * split; [exact I1|split; [|exact R1]]. intro d'. cbn [sfs]. unfold exists_file.
+      * split; [exact I1|split; [intros _; exact A1|split; [|exact R1]]]. intro d'. cbn [sfs]. unfold exists_file.
         rewrite F1; [reflexivity|discriminate|reflexivity].
-    + destruct (noop_safe s _ _ I eq_refl eq_refl) as (N1 & N2 & N3).
-      split; [exact N1|split; [|exact N3]]. intro d'. cbn [sfs]. unfold exists_file. now rewrite N2.
+    + destruct (noop_safe s _ _ I eq_refl eq_refl) as (N1 & NA & N2 & N3).
+      split; [exact N1|split; [exact NA|split; [|exact N3]]].
+      intro d'. cbn [sfs]. unfold exists_file. now rewrite N2.
   - (* Delete *)
     cbn [op_mem spec_blobs_step]. exact (delete_safe s d I).
   - (* SaveIndex *)
     cbn [op_mem spec_blobs_step].
-    destruct (idx_only_safe s (stags s) (sdigs s) I (inv_tags s I) (inv_digs s I)) as (I1 & F1 & R1).
-    split; [exact I1|split; [|exact R1]]. intro d'. cbn [sfs]. unfold exists_file.
+    destruct (idx_only_safe s (stags s) (sdigs s) I (inv_tagdig s I) (inv_digs s I)) as (I1 & A1 & F1 & R1).
+    split; [exact I1|split; [intros _; exact A1|split; [|exact R1]]]. intro d'. cbn [sfs]. unfold exists_file.
     rewrite F1; [reflexivity|discriminate|reflexivity].
 Qed.
 
@@ -680,14 +744,23 @@ Proof.
   - intros d f Hf. discriminate.
   - intros r n [].
   - intros n [].
-  - intros p Hp. destruct p; try discriminate; reflexivity.
-  - exists []. split; [reflexivity|]. intro e. cbn. tauto.
+  - intros p Hp _. destruct p; try discriminate; reflexivity.
+  - exists []. split; [reflexivity|]. intros e [].
 Qed.
+
+Lemma agree_init : Agree init.
+Proof. exists []. split; [reflexivity|]. intro e. cbn. tauto. Qed.
 
 Lemma inv_run h : forall s, Inv s -> Inv (run H shuffle false false h s).
 Proof.
   induction h as [|o h IH]; intros s I; [exact I|].
   cbn [run fold_left]. apply IH. now apply op_safe.
+Qed.
+
+Lemma agree_run h : forall s, Inv s -> Agree s -> Agree (run H shuffle false false h s).
+Proof.
+  induction h as [|o h IH]; intros s I A; [exact A|].
+  cbn [run fold_left]. destruct (op_safe s o I) as (I1 & A1 & _). apply IH; [exact I1|now apply A1].
 Qed.
 
 Theorem crash_safe h o k :
@@ -696,15 +769,18 @@ Theorem crash_safe h o k :
 Proof. intro s. apply op_safe. apply inv_run. apply inv_init. Qed.
 
 (* what the statement says in words, as corollaries *)
+Lemma rec_same_tags fs0 fsk fs1 :
+  Recoverable H fs0 fsk fs1 -> same_tags fsk fs0 \/ same_tags fsk fs1.
+Proof.
+  intros (_ & _ & (l & Hl & _) & R & _). destruct R as [R|R]; [left|right];
+    exists l, l; rewrite <- R; repeat split; auto.
+Qed.
+
 Corollary crash_tags_before_or_after h o k :
   let s := run H shuffle false false h init in
   let fsk := crash_fs H shuffle false false s o k in
   same_tags fsk (sfs s) \/ same_tags fsk (sfs (run_op H shuffle false false s o)).
-Proof.
-  intros s fsk. destruct (crash_safe h o k) as (_ & _ & (l & Hl & _) & R & _).
-  fold s in Hl, R. fold fsk in Hl, R. destruct R as [R|R]; [left|right];
-    exists l, l; rewrite <- R; repeat split; auto.
-Qed.
+Proof. intros s fsk. apply rec_same_tags. apply crash_safe. Qed.
 
 (* ---------- completed operations: the directory refines the sequential specification ---------- *)
 Lemma save_tagged tags digs n r : In (n, Some r) (save tags digs) <-> In (r, n) tags.
@@ -740,7 +816,7 @@ Lemma rel_step s o bs tg :
   Inv s -> Rel s bs tg -> Rel (runop s o) (spec_blobs_step H bs o) (spec_tags_step bs tg o).
 Proof.
   intros I [Rb Rt]. split.
-  - intro d'. destruct (op_safe s o I) as (_ & E & _). rewrite E.
+  - intro d'. destruct (op_safe s o I) as (_ & _ & E & _). rewrite E.
     apply spec_blobs_ext. exact Rb.
   - unfold run_op. destruct o as [d cont man|d r|r|d|]; cbn [op_mem spec_tags_step].
     + (* Push: the tag map does not change *)
@@ -795,9 +871,135 @@ Proof.
   { split; [reflexivity|]. intros r n. cbn. split; [contradiction|discriminate]. }
   destruct (rel_run h init _ _ inv_init R0) as [Rb Rt]. fold s in Rb, Rt. fold bs in Rb. fold tg in Rt.
   split; [exact Rb|].
-  destruct (inv_index _ (inv_run h init inv_init)) as (l & Hl & He). fold s in Hl, He.
+  destruct (agree_run h init inv_init agree_init) as (l & Hl & He). fold s in Hl, He.
   exists l. split; [exact Hl|]. intros r n. unfold tag_of. rewrite He, save_tagged. apply Rt.
 Qed.
+
+(* ---------- crash, reopen, carry on: the invariant survives ---------- *)
+Definition tc_ok (c : nat) (m : mstep) : Prop :=
+  forall p, touches m p -> is_temp p = true -> temp_ctr p = c.
+Definition all_tc (c : nat) (ms : list mstep) : Prop := forall m, In m ms -> tc_ok c m.
+
+Lemma all_tc_nil c : all_tc c [].
+Proof. intros m []. Qed.
+
+Lemma all_tc_cons c m ms : tc_ok c m -> all_tc c ms -> all_tc c (m :: ms).
+Proof. intros Hm Hms x [<-|Hin]; [exact Hm|now apply Hms]. Qed.
+
+Lemma all_tc_app c a e : all_tc c a -> all_tc c e -> all_tc c (a ++ e).
+Proof. intros Ha He m Hin. apply in_app_or in Hin as [Hin|Hin]; [now apply Ha|now apply He]. Qed.
+
+Lemma all_tc_mkdirs c fs : all_tc c (mkdirs fs).
+Proof. intros m Hin p Hp. exfalso. exact (mkdirs_touch fs m p Hin Hp). Qed.
+
+Lemma all_tc_writes c t cont : temp_ctr t = c -> all_tc c (map (fun x => Write t (AChunk x)) cont).
+Proof. intros Ht m Hin. apply in_map_iff in Hin as (x & <- & _). intros p Hp _. cbn in Hp. now subst p. Qed.
+
+Ltac tc_step :=
+  let p := fresh "p" in let Hp := fresh "Hp" in let Ht := fresh "Ht" in
+  intros p Hp Ht; cbn in Hp;
+  repeat match goal with Hx : _ \/ _ |- _ => destruct Hx end;
+  subst; try discriminate; try contradiction; reflexivity.
+
+Lemma all_tc_idx c tags digs : all_tc c (idx_steps c tags digs).
+Proof.
+  cbv beta iota delta [index_steps].
+  apply all_tc_cons; [unfold tc_ok; tc_step|].
+  apply all_tc_cons; [unfold tc_ok; tc_step|].
+  apply all_tc_cons; [unfold tc_ok; tc_step|].
+  apply all_tc_cons; [unfold tc_ok; tc_step|].
+  apply all_tc_nil.
+Qed.
+
+Ltac tc_solve :=
+  repeat match goal with
+  | |- all_tc _ [] => apply all_tc_nil
+  | |- all_tc _ (index_steps _ _ _ _ _) => apply all_tc_idx
+  | |- all_tc _ (mkdirs _) => apply all_tc_mkdirs
+  | |- all_tc _ (map _ _) => apply all_tc_writes; reflexivity
+  | |- all_tc _ (_ ++ _) => apply all_tc_app
+  | |- all_tc _ (_ :: _) => apply all_tc_cons
+  | |- tc_ok _ _ => unfold tc_ok; tc_step
+  end.
+
+Lemma op_steps_tc s o : all_tc (sctr s) (steps s o).
+Proof.
+  unfold op_steps. destruct o as [d cont man|d r|r|d|]; cbn [op_mem].
+  - destruct (exists_file (sfs s) (FBlob d)); [apply all_tc_nil|].
+    destruct (H cont =? d); cbn [negb]; destruct man; tc_solve.
+  - destruct (exists_file (sfs s) (FBlob d)); tc_solve.
+  - destruct (tag_get r (stags s)); tc_solve.
+  - destruct (existsb (fun e => snd e =? d) (stags s) || memN d (sdigs s));
+      destruct (exists_file (sfs s) (FBlob d)); tc_solve.
+  - tc_solve.
+Qed.
+
+Lemma load_spec l : forall tags digs,
+  (forall r n, In (r, n) tags -> In n digs) ->
+  (forall r n, In (r, n) (fst (load l tags digs)) -> In n (snd (load l tags digs))) /\
+  (forall n, In n (snd (load l tags digs)) -> In n digs \/ exists r, In (n, r) l) /\
+  (forall n, In n digs -> In n (snd (load l tags digs))) /\
+  (forall e, In e l -> In (fst e) (snd (load l tags digs))).
+Proof.
+  induction l as [|[n [r|]] l IH]; intros tags digs Hpre.
+  - cbn. repeat split; auto. intros e [].
+  - cbn [load].
+    destruct (IH (tag_set r n tags) (dig_add n digs)) as (A1 & A2 & A3 & A4).
+    { intros r' n' Hin. apply tag_set_In in Hin as [E|Hin].
+      - injection E as -> ->. apply dig_add_self.
+      - apply dig_add_incl. now apply (Hpre r'). }
+    split; [exact A1|]. split; [|split].
+    + intros n' Hin. apply A2 in Hin as [Hin|(r' & Hin)].
+      * apply dig_add_In in Hin as [->|Hin]; [right; exists (Some r); now left|now left].
+      * right. exists r'. now right.
+    + intros n' Hin. apply A3. now apply dig_add_incl.
+    + intros e [<-|Hin]; [apply A3; apply dig_add_self|now apply A4].
+  - cbn [load].
+    destruct (IH tags (dig_add n digs)) as (A1 & A2 & A3 & A4).
+    { intros r' n' Hin. apply dig_add_incl. now apply (Hpre r'). }
+    split; [exact A1|]. split; [|split].
+    + intros n' Hin. apply A2 in Hin as [Hin|(r' & Hin)].
+      * apply dig_add_In in Hin as [->|Hin]; [right; exists None; now left|now left].
+      * right. exists r'. now right.
+    + intros n' Hin. apply A3. now apply dig_add_incl.
+    + intros e [<-|Hin]; [apply A3; apply dig_add_self|now apply A4].
+Qed.
+
+Lemma reopen_inv s o k :
+  Inv s -> Inv (reopen (crash_fs H shuffle false false s o k) (S (sctr s))).
+Proof.
+  intro I. destruct (op_safe s o I) as (_ & _ & _ & R).
+  destruct (R k) as (L & B & (l & Hl & He) & _).
+  set (fsk := crash_fs H shuffle false false s o k) in *.
+  unfold reopen. rewrite Hl.
+  destruct (load_spec l [] []) as (A1 & A2 & _ & A4); [intros r n []|].
+  constructor; cbn [sfs stags sdigs sctr].
+  - exact L.
+  - exact B.
+  - exact A1.
+  - intros n Hin. apply A2 in Hin as [[]|(r & Hin)]. exact (He (n, r) Hin).
+  - intros p Hp Hq. unfold fsk, crash_fs. rewrite apply_frame.
+    + apply (inv_temp s I p Hp). lia.
+    + intros m Hin Ht. apply In_firstn in Hin.
+      pose proof (op_steps_tc s o m Hin p Ht Hp) as E. lia.
+  - exists l. split; [exact Hl|exact A4].
+Qed.
+
+Lemma inv_run_hop s x : Inv s -> Inv (run_hop H shuffle false false s x).
+Proof. intro I. destruct x as [o|o k]; cbn [run_hop]; [now apply op_safe|now apply reopen_inv]. Qed.
+
+Lemma inv_runc h : forall s, Inv s -> Inv (runc H shuffle false false h s).
+Proof.
+  induction h as [|x h IH]; intros s I; [exact I|].
+  cbn [runc fold_left]. apply IH. now apply inv_run_hop.
+Qed.
+
+(* after any history in which operations completed or were interrupted at any cut (the
+   store being reopened after each crash), the next operation is crash-safe again *)
+Theorem crash_safe_recovered (h : list hop) o k :
+  let s := runc H shuffle false false h init in
+  Recoverable H (sfs s) (crash_fs H shuffle false false s o k) (sfs (run_op H shuffle false false s o)).
+Proof. intro s. apply op_safe. apply inv_runc. apply inv_init. Qed.
 
 End Crash.
 
@@ -870,4 +1072,13 @@ Theorem completed_effects_src :
       (forall d, exists_file (sfs s) (FBlob d) = bs d) /\
       exists l, read_index (sfs s) = Some l /\ forall r n, tag_of l r n <-> tg r = Some n.
 Proof. rewrite src_inplace_false, src_unlink_first_false. exact completed_effects. Qed.
+
+Theorem crash_safe_recovered_src :
+  forall (H : list N -> N) (shuffle : nat -> list entry -> list entry),
+    (forall c l e, In e (shuffle c l) <-> In e l) ->
+    forall (h : list hop) (o : op) (k : nat),
+      let s := runc H shuffle src_inplace src_unlink_first h init in
+      Recoverable H (sfs s) (crash_fs H shuffle src_inplace src_unlink_first s o k)
+        (sfs (run_op H shuffle src_inplace src_unlink_first s o)).
+Proof. rewrite src_inplace_false, src_unlink_first_false. exact crash_safe_recovered. Qed.
 
